@@ -144,3 +144,23 @@ Lemma rejected_load_pinned_binding_refuted_proof :
 Proof.
   exists h_rej. split; [apply builds_witness|]. vm_compute. discriminate.
 Qed.
+
+(* wave 6 (seeded C13-v2): several definitions of one name registered between the loads and ONE link: the exporter
+   queued first, the importer after it, a newer definition (a second exporter / an external) registered last.  The
+   importer is bound to the definition registered last, not to the exporter the link reaches first, and the table of
+   globals after the link still holds the newest definition. *)
+Definition h_batch2 : list op := [SetRedef true; Load A; Load B; Load A; Link no_resolver].
+Definition h_batchx : list op := [Load A; Load B; LoadExternal 0 7; Link no_resolver].
+
+Example batch_binds_newest_export :
+  linked (fst (run h_batch2))
+  = [(0, [(KExport, 0, Some (DMod 0 1 KFunc))]); (1, [(KImport, 0, Some (DMod 2 1 KFunc))]);
+     (2, [(KExport, 0, Some (DMod 2 1 KFunc))])]
+  /\ assoc (env (fst (run h_batch2))) 0 = Some (DMod 2 1 KFunc).
+Proof. vm_compute. split; reflexivity. Qed.
+
+Example batch_binds_external_registered_last :
+  linked (fst (run h_batchx))
+  = [(0, [(KExport, 0, Some (DMod 0 1 KFunc))]); (1, [(KImport, 0, Some (DExt 7))])]
+  /\ assoc (env (fst (run h_batchx))) 0 = Some (DExt 7).
+Proof. vm_compute. split; reflexivity. Qed.
